@@ -223,6 +223,7 @@ fn inline_image(lexer: &mut Lexer, resolve: &impl Resolve) -> Result<Arc<ImageXO
 
 struct OpBuilder {
     last: Point,
+    subpath_start: Point,
     compability_section: bool,
     ops: Vec<Op>
 }
@@ -230,6 +231,7 @@ impl OpBuilder {
     fn new() -> Self {
         OpBuilder {
             last: Point { x: 0., y: 0. },
+            subpath_start: Point { x: 0., y: 0. },
             compability_section: false,
             ops: Vec::new()
         }
@@ -281,11 +283,13 @@ impl OpBuilder {
             "b"   => {
                 push(Op::Close);
                 push(Op::FillAndStroke { winding: NonZero });
+                self.last = self.subpath_start;
             },
             "B"   => push(Op::FillAndStroke { winding: NonZero }),
             "b*"  => {
                 push(Op::Close);
                 push(Op::FillAndStroke { winding: EvenOdd });
+                self.last = self.subpath_start;
             }
             "B*"  => push(Op::FillAndStroke { winding: EvenOdd }),
             "BDC" => push(Op::BeginMarkedContent {
@@ -342,7 +346,10 @@ impl OpBuilder {
             "G"   => push(Op::StrokeColor { color: Color::Gray(number(&mut args)?) }),
             "g"   => push(Op::FillColor { color: Color::Gray(number(&mut args)?) }),
             "gs"  => push(Op::GraphicsState { name: name(&mut args)? }),
-            "h"   => push(Op::Close),
+            "h"   => {
+                push(Op::Close);
+                self.last = self.subpath_start;
+            }
             "i"   => push(Op::Flatness { tolerance: number(&mut args)? }),
             "ID"  => bail!("Parse Error. Unexpected 'ID'"),
             "j"   => {
@@ -382,13 +389,19 @@ impl OpBuilder {
                 let p = point(&mut args)?;
                 push(Op::MoveTo { p });
                 self.last = p;
+                self.subpath_start = p;
             }
             "M"   => push(Op::MiterLimit { limit: number(&mut args)? }),
             "MP"  => push(Op::MarkedContentPoint { tag: name(&mut args)?, properties: None }),
             "n"   => push(Op::EndPath),
             "q"   => push(Op::Save),
             "Q"   => push(Op::Restore),
-            "re"  => push(Op::Rect { rect: rect(&mut args)? }),
+            "re"  => {
+                let rect = rect(&mut args)?;
+                push(Op::Rect { rect });
+                self.last = Point { x: rect.x, y: rect.y };
+                self.subpath_start = self.last;
+            }
             "RG"  => push(Op::StrokeColor { color: Color::Rgb(rgb(&mut args)?) }),
             "rg"  => push(Op::FillColor { color: Color::Rgb(rgb(&mut args)?) }),
             "ri"  => {
@@ -400,6 +413,7 @@ impl OpBuilder {
             "s"   => {
                 push(Op::Close);
                 push(Op::Stroke);
+                self.last = self.subpath_start;
             }
             "S"   => push(Op::Stroke),
             "SC" | "SCN" => {
@@ -553,6 +567,7 @@ pub fn serialize_ops(mut ops: &[Op]) -> Result<Vec<u8>> {
 
     let mut data = Vec::new();
     let mut current_point = None;
+    let mut subpath_start = None;
     let f = &mut data;
 
     while ops.len() > 0 {
@@ -579,24 +594,28 @@ pub fn serialize_ops(mut ops: &[Op]) -> Result<Vec<u8>> {
                 writeln!(f, " MP")?;
             }
             Op::EndMarkedContent => writeln!(f, "EMC")?,
-            Op::Close => match ops.get(1) {
-                Some(Op::Stroke) => {
-                    writeln!(f, "s")?;
-                    advance += 1;
+            Op::Close => {
+                match ops.get(1) {
+                    Some(Op::Stroke) => {
+                        writeln!(f, "s")?;
+                        advance += 1;
+                    }
+                    Some(Op::FillAndStroke { winding: Winding::NonZero }) => {
+                        writeln!(f, "b")?;
+                        advance += 1;
+                    }
+                    Some(Op::FillAndStroke { winding: Winding::EvenOdd }) => {
+                        writeln!(f, "b*")?;
+                        advance += 1;
+                    }
+                    _ => writeln!(f, "h")?,
                 }
-                Some(Op::FillAndStroke { winding: Winding::NonZero }) => {
-                    writeln!(f, "b")?;
-                    advance += 1;
-                }
-                Some(Op::FillAndStroke { winding: Winding::EvenOdd }) => {
-                    writeln!(f, "b*")?;
-                    advance += 1;
-                }
-                _ => writeln!(f, "h")?,
+                current_point = subpath_start;
             }
             Op::MoveTo { p } => {
                 writeln!(f, "{} m", p)?;
                 current_point = Some(p);
+                subpath_start = Some(p);
             }
             Op::LineTo { p } => {
                 writeln!(f, "{} l", p)?;
@@ -612,7 +631,11 @@ pub fn serialize_ops(mut ops: &[Op]) -> Result<Vec<u8>> {
                 }
                 current_point = Some(p);
             },
-            Op::Rect { rect } => writeln!(f, "{} re", rect)?,
+            Op::Rect { rect } => {
+                writeln!(f, "{} re", rect)?;
+                current_point = Some(Point { x: rect.x, y: rect.y });
+                subpath_start = current_point;
+            }
             Op::EndPath => writeln!(f, "n")?,
             Op::Stroke => writeln!(f, "S")?,
             Op::FillAndStroke { winding: Winding::NonZero } => writeln!(f, "B")?,
